@@ -132,11 +132,13 @@ CHECKS = {
     },
     'C12': {
         'units': lambda t: [dict(u_tree(t, k), shards=4) for k in range(7)],
+        'extra': lambda pid, tier, agg, deadline: __import__('c12_static').run(pid, tier, agg, deadline),
         'rule': 'tables of <=3 rules over the classical operators, must and try_catch_*_return_false with throwing actions (aborted branches the run survives) '
                 'and open tables with throwing holes, all inputs over {a,b} of length <=3 (thorough 4), through parse_tree::parse with 7 selector/transformer '
                 'variants (all, even ids, odd ids, fold_one, discard_empty, remove_content+fold_one, none); oracle: tree returned iff the parse succeeds; '
                 'flattened (type, begin, end, depth) sequence equals the surviving derivation of the reference with the transformers applied as documented; '
-                'node positions follow the prefix formula',
+                'node positions follow the prefix formula; compile-time leaf optimisation: static chains of depth 1..12 with every selection of <=2 chain rules under an alternative that '
+                'matches the chain and then fails',
         'assumptions': T_ASSUME + ['node::subs_t of table rules lists all rules, so the compile-time leaf optimisation is exercised separately on static grammars'],
     },
     'C14': {
